@@ -333,6 +333,8 @@ pub fn check(env: &mut Env, case: &Case) -> Verdict {
                         sane.push(Step::AssertZ(fixk(a, &mut rewritten), b2))
                     }
                     Step::AssertA(a, b) => {
+                        // asserta into an indexed dynamic predicate is a recorded C09 defect family (e.g.
+                        // assertz(p(g(a),0)), asserta(p(-3.25,1)), assertz(p(-3.25,2)): p(-3.25,N) gives [2])
                         rewritten = true;
                         let b2 = if two { fixk(b, &mut rewritten) } else { b.clone() };
                         sane.push(Step::AssertZ(fixk(a, &mut rewritten), b2))
